@@ -398,6 +398,11 @@ def choose_picks(rng, capella_file: pathlib.Path, n_max: int):
             continue
         if xt.split(":", 1)[0] not in root.nsmap:
             continue
+        # roots typed in Capella's own metamodel only: a fragment root carries its type as a namespaced TAG, and the loader refuses
+        # (documented UnsupportedPluginError) tags of add-ons it has no table entry for (e.g. filtering:FilteringCriterionPkg), although
+        # it tolerates the same type as an xsi:type value -- a loading limitation, not the writer's / save()'s subject
+        if not root.nsmap[xt.split(":", 1)[0]].startswith(("http://www.polarsys.org/capella/core/", "http://www.polarsys.org/capella/common/")):
+            continue
         cands.append(el)
         p = xt.split(":", 1)[0]
         if type_prefixes(el).get(p, 0) == total.get(p, 0):
@@ -554,6 +559,113 @@ def capella_file_oracle(path: pathlib.Path, rel: str, ref_ns: dict[str, str]) ->
     return probs, info
 
 
+def fragmented_layout(chk, capellambse, data, aird, lseed: int, li: int, quick: bool, frag_stats: dict, frag_fcases: list):
+    """one fragmented layout of one corpus model: split, load + save with the tree under check, oracles (see run(), phase 2b)"""
+    import fragmenter
+    import random as _random
+    r2 = _random.Random(lseed)
+    mains = sorted(aird.parent.glob("*.capella"))
+    if len(mains) != 1:
+        return
+    capella_name = mains[0].name
+    ref_ns = {p: u for p, u in ET.parse(str(mains[0])).getroot().nsmap.items() if p}
+    picks, pinfo = choose_picks(r2, mains[0], 3)
+    if not picks:
+        return
+    style = "chain" if li % 3 != 2 else "direct"
+    mname = str(aird.parent.relative_to(data))
+    rep = {"model": mname, "picks": picks, "aird_style": style, "layout_seed": lseed}
+    with lib.scratch("c01f-") as tmp:
+        mdir = tmp / "m"
+        shutil.copytree(aird.parent, mdir, ignore=shutil.ignore_patterns("*.license"))
+        made = fragmenter.fragment_model(mdir, capella_name, aird.name, picks, aird_style=style)
+        if not made:
+            return
+        files0 = disk_files(mdir)
+        # files below the model directory that no file of the model refers to (e.g. pvmt/expected-output/apply.capella): not the model's
+        unrelated = {f for f in files0 if pathlib.PurePosixPath(f).suffix in FRAG_EXT} - referenced_files(mdir, aird.name)[0]
+        pre = {}
+        for f in files0:
+            if pathlib.PurePosixPath(f).suffix in FRAG_EXT:
+                pre[f] = ET.parse(str(mdir / f), xmlenc.parser()).getroot()
+        frag_stats["layouts"] += 1
+        frag_stats["fragment_files"] += len(made)
+        frag_stats["in_sub_directory"] += sum("/" in f for f in made)
+        frag_stats["nested"] += pinfo["nested"]
+        frag_stats["aird_style"][style] = frag_stats["aird_style"].get(style, 0) + 1
+        frag_stats["models"][mname] = frag_stats["models"].get(mname, 0) + 1
+        chk.note_case(("fragmented", mname, tuple(picks), style), nontrivial=True)
+        try:
+            m = capellambse.MelodyModel(str(mdir / aird.name))
+            roots0 = {k_: t_.root for k_, t_ in m._loader.trees.items()}
+            m.save()
+        except Exception as e:  # noqa: BLE001
+            chk.violation(f"frag-save:{type(e).__name__}:{mname}", f"load/save of the fragmented copy of {mname} raises {type(e).__name__}: {str(e)[:200]}", rep)
+            return
+        frag_stats["roots_replaced_by_first_save"] += sum(1 for k_, t_ in m._loader.trees.items() if t_.root is not roots0[k_])
+        held = sorted(pathlib.PurePosixPath(*k_.parts[1:]).as_posix() for k_ in m._loader.trees if k_.parts[0] == "\0")
+        del m, roots0
+        probs = []
+        files1 = disk_files(mdir)
+        if files1 != files0:
+            probs.append(("files", f"save() changed the set of files on disk: new {sorted(set(files1) - set(files0))}, missing {sorted(set(files0) - set(files1))}"))
+        for h in held:
+            if h not in files1:
+                probs.append(("files", f"the loader holds {h!r}, which is not on disk at that path"))
+        refd, rp = referenced_files(mdir, aird.name)
+        probs += [("files", x) for x in rp]
+        model_files = {f for f in files1 if pathlib.PurePosixPath(f).suffix in FRAG_EXT} - unrelated
+        if refd != model_files or set(held) != model_files:
+            probs.append(("files", f"model files on disk {sorted(model_files)}; reachable from the entry point by what the files say {sorted(refd)}; held by the loader {held}"))
+        bytes1 = {}
+        ph_only_files = 0
+        for f in sorted(model_files):
+            bytes1[f] = (mdir / f).read_bytes()
+            op, oinfo = capella_file_oracle(mdir / f, f, ref_ns)
+            probs += [("ns", x) for x in op]
+            frag_stats["placeholders"] += oinfo["placeholders"]
+            ph_only_files += bool(oinfo["placeholder_only_prefixes"])
+            frag_stats["files_checked"] += 1
+            if f in pre:
+                try:
+                    post = ET.fromstring(bytes1[f], xmlenc.parser())
+                except ET.XMLSyntaxError:
+                    continue
+                d = xmlenc.doc_diff(pre[f], post, unordered_first=PRIO)
+                if d:
+                    probs.append(("content", f"{f}: an untouched load/save changed the file's information: " + "; ".join(d[:2])))
+                if len(bytes1[f]) <= (30_000 if quick else 60_000) and len(frag_fcases) < (14 if quick else 150):
+                    b, r, a = xmlenc.enc_doc(post)
+                    frag_fcases.append(([pathlib.PurePosixPath(f).suffix, b, r, a], bytes1[f]))
+        frag_stats["files_with_placeholder_only_namespace"] += ph_only_files
+        frag_stats["layouts_with_placeholder_only_namespace"] += bool(ph_only_files)
+        # fixpoint: load what was saved, save again
+        try:
+            m = capellambse.MelodyModel(str(mdir / aird.name))
+            m.save()
+            del m
+        except Exception as e:  # noqa: BLE001
+            probs.append(("fixpoint", f"load/save of the saved fragmented copy raises {type(e).__name__}: {str(e)[:200]}"))
+        files2 = disk_files(mdir)
+        if files2 != files1:
+            probs.append(("files", f"the second save() changed the set of files: new {sorted(set(files2) - set(files1))}, missing {sorted(set(files1) - set(files2))}"))
+        for f in sorted(model_files):
+            new = (mdir / f).read_bytes() if (mdir / f).is_file() else b""
+            if new == bytes1[f]:
+                frag_stats["files_byte_fixpoint"] += 1
+            else:
+                off = next((i for i, (x, y) in enumerate(zip(bytes1[f], new)) if x != y), min(len(bytes1[f]), len(new)))
+                probs.append(("fixpoint", f"{f}: load/save of the saved file is not byte-identical, first difference at byte {off}: "
+                                          f"{bytes1[f][max(0, off - 40):off + 40]!r} -> {new[max(0, off - 40):off + 40]!r}"))
+        seen_cat = set()
+        for cat, what in probs:
+            if cat in seen_cat:
+                continue
+            seen_cat.add(cat)
+            chk.violation(f"frag-{cat}:{mname}", f"fragmented copy of {mname} ({len(made)} fragment files, {style}): {what[:500]}",
+                          dict(rep, problems=[w for c_, w in probs if c_ == cat][:8]))
+
+
 def run(chk: lib.Check):
     import capellambse
     from capellambse.loader import exs, core
@@ -701,7 +813,7 @@ def run(chk: lib.Check):
     small_models = [(a, kw) for a, kw in models if not kw and a.stat().st_size + sum(c.stat().st_size for c in a.parent.glob("*.capella")) < 1_500_000]
     big_models = [(a, kw) for a, kw in models if not kw and (a, kw) not in small_models]
     layouts = []
-    n_small, n_big = (7, 1) if quick else (60, 9)
+    n_small, n_big = (12, 2) if quick else (90, 12)
     rng.shuffle(big_models)
     for i in range(n_small):
         layouts.append(small_models[i % len(small_models)])
@@ -709,109 +821,7 @@ def run(chk: lib.Check):
         pref = [m_ for m_ in big_models if m_[0].parent.name == "5_2"] if quick else []
         layouts.append((pref or big_models)[i % len(pref or big_models)])
     for li, (aird, kw) in enumerate(layouts):
-        lseed = rng.getrandbits(48)
-        import random as _random
-        r2 = _random.Random(lseed)
-        mains = sorted(aird.parent.glob("*.capella"))
-        if len(mains) != 1:
-            continue
-        capella_name = mains[0].name
-        ref_ns = {p: u for p, u in ET.parse(str(mains[0])).getroot().nsmap.items() if p}
-        picks, pinfo = choose_picks(r2, mains[0], 3)
-        if not picks:
-            continue
-        style = "chain" if li % 3 != 2 else "direct"
-        mname = str(aird.parent.relative_to(data))
-        rep = {"model": mname, "picks": picks, "aird_style": style, "layout_seed": lseed}
-        with lib.scratch("c01f-") as tmp:
-            mdir = tmp / "m"
-            shutil.copytree(aird.parent, mdir, ignore=shutil.ignore_patterns("*.license"))
-            made = fragmenter.fragment_model(mdir, capella_name, aird.name, picks, aird_style=style)
-            if not made:
-                continue
-            files0 = disk_files(mdir)
-            # files below the model directory that no file of the model refers to (e.g. pvmt/expected-output/apply.capella): not the model's
-            unrelated = {f for f in files0 if pathlib.PurePosixPath(f).suffix in FRAG_EXT} - referenced_files(mdir, aird.name)[0]
-            pre = {}
-            for f in files0:
-                if pathlib.PurePosixPath(f).suffix in FRAG_EXT:
-                    pre[f] = ET.parse(str(mdir / f), xmlenc.parser()).getroot()
-            frag_stats["layouts"] += 1
-            frag_stats["fragment_files"] += len(made)
-            frag_stats["in_sub_directory"] += sum("/" in f for f in made)
-            frag_stats["nested"] += pinfo["nested"]
-            frag_stats["aird_style"][style] = frag_stats["aird_style"].get(style, 0) + 1
-            frag_stats["models"][mname] = frag_stats["models"].get(mname, 0) + 1
-            chk.note_case(("fragmented", mname, tuple(picks), style), nontrivial=True)
-            try:
-                m = capellambse.MelodyModel(str(mdir / aird.name))
-                roots0 = {k_: t_.root for k_, t_ in m._loader.trees.items()}
-                m.save()
-            except Exception as e:  # noqa: BLE001
-                chk.violation(f"frag-save:{type(e).__name__}:{mname}", f"load/save of the fragmented copy of {mname} raises {type(e).__name__}: {str(e)[:200]}", rep)
-                continue
-            frag_stats["roots_replaced_by_first_save"] += sum(1 for k_, t_ in m._loader.trees.items() if t_.root is not roots0[k_])
-            held = sorted(pathlib.PurePosixPath(*k_.parts[1:]).as_posix() for k_ in m._loader.trees if k_.parts[0] == "\0")
-            del m, roots0
-            probs = []
-            files1 = disk_files(mdir)
-            if files1 != files0:
-                probs.append(("files", f"save() changed the set of files on disk: new {sorted(set(files1) - set(files0))}, missing {sorted(set(files0) - set(files1))}"))
-            for h in held:
-                if h not in files1:
-                    probs.append(("files", f"the loader holds {h!r}, which is not on disk at that path"))
-            refd, rp = referenced_files(mdir, aird.name)
-            probs += [("files", x) for x in rp]
-            model_files = {f for f in files1 if pathlib.PurePosixPath(f).suffix in FRAG_EXT} - unrelated
-            if refd != model_files or set(held) != model_files:
-                probs.append(("files", f"model files on disk {sorted(model_files)}; reachable from the entry point by what the files say {sorted(refd)}; held by the loader {held}"))
-            bytes1 = {}
-            ph_only_files = 0
-            for f in sorted(model_files):
-                bytes1[f] = (mdir / f).read_bytes()
-                op, oinfo = capella_file_oracle(mdir / f, f, ref_ns)
-                probs += [("ns", x) for x in op]
-                frag_stats["placeholders"] += oinfo["placeholders"]
-                ph_only_files += bool(oinfo["placeholder_only_prefixes"])
-                frag_stats["files_checked"] += 1
-                if f in pre:
-                    try:
-                        post = ET.fromstring(bytes1[f], xmlenc.parser())
-                    except ET.XMLSyntaxError:
-                        continue
-                    d = xmlenc.doc_diff(pre[f], post, unordered_first=PRIO)
-                    if d:
-                        probs.append(("content", f"{f}: an untouched load/save changed the file's information: " + "; ".join(d[:2])))
-                    if len(bytes1[f]) <= (30_000 if quick else 60_000) and len(frag_fcases) < (14 if quick else 150):
-                        b, r, a = xmlenc.enc_doc(post)
-                        frag_fcases.append(([pathlib.PurePosixPath(f).suffix, b, r, a], bytes1[f]))
-            frag_stats["files_with_placeholder_only_namespace"] += ph_only_files
-            frag_stats["layouts_with_placeholder_only_namespace"] += bool(ph_only_files)
-            # fixpoint: load what was saved, save again
-            try:
-                m = capellambse.MelodyModel(str(mdir / aird.name))
-                m.save()
-                del m
-            except Exception as e:  # noqa: BLE001
-                probs.append(("fixpoint", f"load/save of the saved fragmented copy raises {type(e).__name__}: {str(e)[:200]}"))
-            files2 = disk_files(mdir)
-            if files2 != files1:
-                probs.append(("files", f"the second save() changed the set of files: new {sorted(set(files2) - set(files1))}, missing {sorted(set(files1) - set(files2))}"))
-            for f in sorted(model_files):
-                new = (mdir / f).read_bytes() if (mdir / f).is_file() else b""
-                if new == bytes1[f]:
-                    frag_stats["files_byte_fixpoint"] += 1
-                else:
-                    off = next((i for i, (x, y) in enumerate(zip(bytes1[f], new)) if x != y), min(len(bytes1[f]), len(new)))
-                    probs.append(("fixpoint", f"{f}: load/save of the saved file is not byte-identical, first difference at byte {off}: "
-                                              f"{bytes1[f][max(0, off - 40):off + 40]!r} -> {new[max(0, off - 40):off + 40]!r}"))
-            seen_cat = set()
-            for cat, what in probs:
-                if cat in seen_cat:
-                    continue
-                seen_cat.add(cat)
-                chk.violation(f"frag-{cat}:{mname}", f"fragmented copy of {mname} ({len(made)} fragment files, {style}): {what[:500]}",
-                              dict(rep, problems=[w for c_, w in probs if c_ == cat][:8]))
+        fragmented_layout(chk, capellambse, data, aird, rng.getrandbits(48), li, quick, frag_stats, frag_fcases)
     chk.correspond(IMP, "w_file", frag_fcases, tag=f"C01_fragfile_{RUN}", shard=1,
                    describe=lambda i: {"fragment": frag_fcases[i][0][0], "written": frag_fcases[i][1].decode("utf-8", "replace")[:1500]})
     frag_stats["files_to_writer_model"] = len(frag_fcases)
